@@ -46,6 +46,21 @@ def main():
         shutil.copy(src / f"notes{k}.md", out / "notes.md")
     meta = dict(property=prop, name=name, repo_head=sh(["git", "-C", "/repo", "rev-parse", "HEAD"]).stdout.strip(),
                 ran=[], at=time.strftime("%Y-%m-%dT%H:%M:%SZ", time.gmtime()))
+    # earlier runs of this record are kept (what the checks said before they were strengthened)
+    prev = {}
+    if (out / "meta.json").exists():
+        try:
+            prev = json.load(open(out / "meta.json"))
+        except Exception:  # noqa
+            prev = {}
+    for k_ in ("history", "suite_stable_missing", "suite_missing_rerun_ok", "suite_wall_s", "suite_note",
+               "suite_still_missing_after_rerun", "suite_missing_rerun_tail"):
+        if k_ in prev:
+            meta[k_] = prev[k_]
+    meta["previous_runs"] = list(prev.get("previous_runs", []))
+    if "verdicts" in prev:
+        meta["previous_runs"].append(dict(at=prev.get("at"), repo_head=prev.get("repo_head"), caught_by=prev.get("caught_by"),
+                                          verdicts={c_: dict(exit=v_["exit"], lines=v_["lines"][-3:]) for c_, v_ in prev["verdicts"].items()}))
     sh(["git", "-C", "/repo", "worktree", "remove", "--force", str(wt)])
     r = sh(["git", "-C", "/repo", "worktree", "add", "--detach", str(wt), "HEAD"])
     assert r.returncode == 0, r.stderr
